@@ -200,10 +200,45 @@ def grid_axioms(atoms, depth_terms):
     return out
 
 
-def card_axioms(t):
+def card_axioms(t, pairs=()):
+    """AX-CARD: card >= 0, card = 0 iff empty, and for a set contained in {a, b} (a != b): card = [a in S] + [b in S]"""
     d = t.arg(0)
     s = d.sort().domain()
-    return [t >= 0, (t == 0) == (d == z3.K(s, z3.BoolVal(False)))]
+    out = [t >= 0, (t == 0) == (d == z3.K(s, z3.BoolVal(False)))]
+    for a, b in pairs:
+        if a.sort() != s:
+            continue
+        k = z3.FreshConst(s, "ck")
+        sub = z3.ForAll([k], z3.Implies(z3.Select(d, k), z3.Or(k == a, k == b)))
+        out.append(z3.Implies(z3.And(a != b, sub),
+                              t == z3.If(z3.Select(d, a), 1, 0) + z3.If(z3.Select(d, b), 1, 0)))
+    return out
+
+
+def _pair_terms(fs):
+    """(base_symbol(t), quote_symbol(t)) for every ground application of the Pair accessors"""
+    accs = {}
+    seen = set()
+    stack = list(fs)
+    while stack:
+        t = stack.pop()
+        i = t.get_id()
+        if i in seen:
+            continue
+        seen.add(i)
+        if z3.is_quantifier(t):
+            stack.append(t.body())
+            continue
+        if z3.is_app(t):
+            nm = t.decl().name()
+            if nm in ("base_symbol", "quote_symbol") and t.num_args() == 1 and not _has_var(t):
+                accs.setdefault(t.arg(0).get_id(), {})[nm] = t
+            stack.extend(t.children())
+    out = []
+    for d in accs.values():
+        if "base_symbol" in d and "quote_symbol" in d:
+            out.append((d["base_symbol"], d["quote_symbol"]))
+    return out
 
 
 def instantiate(formulas, rounds=2):
@@ -212,6 +247,7 @@ def instantiate(formulas, rounds=2):
     seen = set()
     done = set()
     todo = list(formulas)
+    pairs = None
     for _ in range(rounds):
         apps = {}
         for f in todo:
@@ -230,7 +266,9 @@ def instantiate(formulas, rounds=2):
             for tid, t in apps.get(nm, {}).items():
                 if ("c", tid) not in done:
                     done.add(("c", tid))
-                    new += card_axioms(t)
+                    if pairs is None:
+                        pairs = _pair_terms(formulas)
+                    new += card_axioms(t, pairs)
         extra += new
         todo = new
         if not new:
